@@ -215,3 +215,8 @@ func DescribeDatagramCID(data []byte, cidLen int) string {
 
 	return sb.String()
 }
+
+// u64 is the big-endian encoding of v.
+func u64(v uint64) []byte {
+	return []byte{byte(v >> 56), byte(v >> 48), byte(v >> 40), byte(v >> 32), byte(v >> 24), byte(v >> 16), byte(v >> 8), byte(v)}
+}
